@@ -54,6 +54,91 @@ Proof.
   cbn. lia.
 Qed.
 
+(* ---- ~T: the slices of the constant `spaces` are always within bounds ---- *)
+Lemma int_param_nonneg params pos def z : 0 <= def -> int_param params pos def true = PVal z -> 0 <= z.
+Proof.
+  intros Hd. unfold int_param. destruct (nth_error params pos) as [[|z0|bs|]|]; try discriminate.
+  - intros H. injection H as <-. exact Hd.
+  - cbn [andb]. destruct (z0 <? 0) eqn:E; cbn [orb]; [discriminate|].
+    destruct ((z0 <? - max_dir_param) || (max_dir_param <? z0))%bool; [discriminate|].
+    intros H. injection H as <-. apply Z.ltb_ge in E. exact E.
+  - intros H. injection H as <-. exact Hd.
+Qed.
+Lemma int_param_bounded params pos def nn z : - max_dir_param <= def <= max_dir_param ->
+  int_param params pos def nn = PVal z -> - max_dir_param <= z <= max_dir_param.
+Proof.
+  intros Hd. unfold int_param. destruct (nth_error params pos) as [[|z0|bs|]|]; try discriminate.
+  - intros H. injection H as <-. exact Hd.
+  - destruct (nn && (z0 <? 0))%bool; cbn [orb]; [discriminate|].
+    destruct (z0 <? - max_dir_param) eqn:E1; cbn [orb]; [discriminate|].
+    destruct (max_dir_param <? z0) eqn:E2; [discriminate|].
+    intros H. injection H as <-. apply Z.ltb_ge in E1, E2. lia.
+  - intros H. injection H as <-. exact Hd.
+Qed.
+Lemma col_of_nonneg out : 0 <= col_of out.
+Proof. unfold col_of. lia. Qed.
+(* the next multiple of colinc after `from` lies beyond it (Go's / on non-negative operands) *)
+Lemma next_stop_beyond from colinc : 0 <= from -> 0 < colinc -> from < next_stop from colinc.
+Proof.
+  intros Hf Hc. unfold next_stop. rewrite Z.quot_div_nonneg by lia.
+  pose proof (Z.div_mod from colinc ltac:(lia)) as Hdm. pose proof (Z.mod_pos_bound from colinc Hc) as Hm.
+  rewrite (Z.mul_comm (from / colinc) colinc). lia.
+Qed.
+Lemma pad_nonneg out n : 0 <= n -> exists o, pad out n = Some o.
+Proof. intros H. unfold pad. destruct (n <? 0) eqn:E; [apply Z.ltb_lt in E; lia|eauto]. Qed.
+Lemma t_finish_no_fault out n : 0 <= n -> t_finish out n <> TFault.
+Proof.
+  intros H. unfold t_finish. destruct (max_dir_param <? n); [discriminate|].
+  destruct (pad_nonneg out n H) as [o ->]. discriminate.
+Qed.
+Theorem dir_t_no_fault at_ params out : dir_t at_ params out <> TFault.
+Proof.
+  unfold dir_t.
+  destruct (int_param params 0 0 true) as [colnum|] eqn:E0; [|discriminate].
+  destruct (int_param params 1 1 true) as [colinc|] eqn:E1; [|discriminate].
+  apply int_param_nonneg in E0; [|lia]. apply int_param_nonneg in E1; [|lia].
+  destruct at_.
+  - destruct (pad_nonneg out colnum E0) as [out1 ->].
+    apply t_finish_no_fault. pose proof (col_of_nonneg out1) as Hf.
+    destruct (colinc =? 0) eqn:Ec; cbn [orb]; [lia|]. apply Z.eqb_neq in Ec.
+    destruct (col_of out1 =? Z.quot (col_of out1) colinc * colinc); [lia|].
+    pose proof (next_stop_beyond (col_of out1) colinc Hf ltac:(lia)). lia.
+  - apply t_finish_no_fault. pose proof (col_of_nonneg out) as Hf.
+    destruct (colinc =? 0) eqn:Ec; [lia|]. apply Z.eqb_neq in Ec.
+    destruct (colnum * colinc <? col_of out) eqn:Et.
+    + pose proof (next_stop_beyond (col_of out) colinc Hf ltac:(lia)). lia.
+    + apply Z.ltb_ge in Et. lia.
+Qed.
+(* the product colnum*colinc computed by Go in an int cannot overflow: both factors are bounded *)
+Theorem dir_t_product_fits params colnum colinc :
+  int_param params 0 0 true = PVal colnum -> int_param params 1 1 true = PVal colinc ->
+  0 <= colnum * colinc < 2 ^ 63.
+Proof.
+  intros E0 E1.
+  pose proof (int_param_nonneg params 0%nat 0 colnum ltac:(lia) E0). pose proof (int_param_nonneg params 1%nat 1 colinc ltac:(lia) E1).
+  apply int_param_bounded in E0; [|unfold max_dir_param; lia]. apply int_param_bounded in E1; [|unfold max_dir_param; lia].
+  unfold max_dir_param in *. split; [nia|].
+  apply Z.le_lt_trans with (268435456 * 268435456); [nia|reflexivity].
+Qed.
+(* what ~T appends is bounded: at most maxDirParam spaces after the optional colnum spaces *)
+Theorem dir_t_output_bounded at_ params out out' : dir_t at_ params out = TOut out' ->
+  Z.of_nat (length out') <= Z.of_nat (length out) + 2 * max_dir_param.
+Proof.
+  unfold dir_t.
+  destruct (int_param params 0 0 true) as [colnum|] eqn:E0; [|discriminate].
+  destruct (int_param params 1 1 true) as [colinc|] eqn:E1; [|discriminate].
+  pose proof (int_param_nonneg params 0%nat 0 colnum ltac:(lia) E0) as H0.
+  apply int_param_bounded in E0; [|unfold max_dir_param; lia].
+  assert (Hfin : forall o n o', t_finish o n = TOut o' -> Z.of_nat (length o') <= Z.of_nat (length o) + max_dir_param).
+  { intros o n o'. unfold t_finish. destruct (max_dir_param <? n) eqn:En; [discriminate|]. apply Z.ltb_ge in En.
+    unfold pad. destruct (n <? 0) eqn:E; [discriminate|]. apply Z.ltb_ge in E. intros H. injection H as <-.
+    rewrite app_length, repeat_length. lia. }
+  destruct at_.
+  - unfold pad at 1. destruct (colnum <? 0); [discriminate|].
+    intros H. apply Hfin in H. rewrite app_length, repeat_length in H. lia.
+  - intros H. apply Hfin in H. unfold max_dir_param in *. lia.
+Qed.
+
 Lemma process_no_fault tb s end_ args : end_ <= Z.of_nat (length s) ->
   forall fuel pos argpos out, 0 <= pos -> process tb s end_ args pos argpos out fuel <> OFault.
 Proof.
@@ -64,10 +149,13 @@ Proof.
   pose proof (read_dir_ok tb s end_ args He (S (length s)) (pos + 1) argpos false false [] ltac:(lia)) as Hok.
   destruct (read_dir tb s end_ args (pos + 1) argpos false false [] (S (length s))) as [l c a ps p ap| | |p ap]; cbn [dres_ok] in Hok.
   - destruct (known_letter tb l); cbn [negb]; [|discriminate].
+    pose proof (dir_t_no_fault a ps out) as Ht.
     repeat match goal with
            | |- (if ?c then _ else _) <> _ => destruct c
            | |- match count_of ?x with _ => _ end <> _ => destruct (count_of x)
-           end; try discriminate; apply IH; lia.
+           | |- match move_of ?c ?a ?x ?y with _ => _ end <> _ => destruct (move_of c a x y)
+           | |- match dir_t ?a ?x ?y with _ => _ end <> _ => destruct (dir_t a x y)
+           end; try discriminate; try (exfalso; apply Ht; reflexivity); apply IH; lia.
   - discriminate.
   - destruct Hok.
   - apply IH. lia.
@@ -127,6 +215,8 @@ Proof.
       repeat match goal with
              | |- (if ?c then _ else _) <> _ => destruct c
              | |- match count_of ?x with _ => _ end <> _ => destruct (count_of x)
+             | |- match move_of ?c ?a ?x ?y with _ => _ end <> _ => destruct (move_of c a x y)
+             | |- match dir_t ?a ?x ?y with _ => _ end <> _ => destruct (dir_t a x y)
              end; try discriminate; apply IH; lia.
     + apply IH. lia.
 Qed.
